@@ -194,7 +194,7 @@ class C06(Prop):
     ]
 
     def cases(self, rng, tier):
-        n = 700 if tier == "quick" else 60000
+        n = 700 if tier == "quick" else 9000
         for _ in range(n):
             d = rand_shape(rng)
             yield {"k": "shape", "shape": d, "form": rng.choice(["kw", "pos", "dict"]),
